@@ -141,6 +141,36 @@ var registry = []Harness{
 		Quick:    [][]int{{0, 30, 0, 99, 99}, {0, 10, 99, 99, 99}, {0, 20, 99, 99, 99}, {0, 2, 30, 99, 99}, {0, 2, 32, 99, 99}, {0, 30, 20, 99, 99}},
 		Thorough: [][]int{{0, 30, 0, 99, 99}, {0, 10, 99, 99, 99}, {0, 20, 99, 99, 99}, {0, 2, 30, 99, 99}, {0, 2, 32, 99, 99}, {0, 10, 30, 0, 99}, {0, 30, 10, 99, 99}, {0, 20, 30, 20, 99}, {0, 1, 10, 30, 99}, {0, 30, 30, 0, 99}, {0, 2, 30, 2, 99}, {0, 2, 12, 32, 99}},
 		Bound:    "NNS with one TLD; pool names a.com, b.com, x.a.com, owners o1,o2; the step kinds and names are the params (register / transfer / renew / time passes), within a step the signer, receiver, lifetime 1..4*10^8 s, years 0..11 and the time span 1..3*10^6 ms are symbolic; after every step totalSupply, balanceOf, tokensOf, isAvailable and ownerOf of the name are compared with a reference model (block clock symbolic)"},
+	{Prop: "C11", Pkg: "nns", Func: "VerifC11Authorisation", Link: []string{"nns"},
+		Quick: c11Params(false), Thorough: c11Params(true),
+		Bound: "history: a.com registered by o1, one record, admin a1 (variant 0) / then transferred to o2 (variant 1); ONE invocation of the method given by param1 (addRecord, setRecord, deleteRecords, updateSOA, renew, setAdmin, transfer, register 3rd level, register 2nd level, registerTLD, setPrice) with a symbolic signer set over {o1,o2,o3,a1,new admin,committee}+stranger; committee size param2"},
+	{Prop: "C12", Pkg: "nns", Func: "VerifC12Records", Link: []string{"nns"}, Unwind: 100,
+		Bound: "one registered name; a fixed sequence of record operations (add, add-possibly-duplicate, setRecord with symbolic index 0..2, add to an unregistered sub-name, registration attempt of a name whose sub-name has records, delete SOA, delete TXT) with symbolic 3-byte record data and a symbolic block clock; getRecords/getAllRecords and the SOA record (serial = time of the last mutation) compared with a model after each step"},
+	{Prop: "C12", Pkg: "nns", Func: "VerifC12Limits", Link: []string{"nns"}, Unwind: 100,
+		Quick: [][]int{{17}}, Thorough: [][]int{{16}, {17}, {18}},
+		Bound: "param0 additions of distinct TXT records (one symbolic byte each): exactly the first 16 are accepted; a second CNAME is refused"},
+	{Prop: "C12", Pkg: "nns", Func: "VerifC12Resolve", Link: []string{"nns"}, Unwind: 100,
+		Quick: [][]int{{0, 0}, {1, 0}, {2, 0}, {4, 0}, {1, 1}}, Thorough: [][]int{{0, 0}, {1, 0}, {2, 0}, {3, 0}, {4, 0}, {0, 1}, {1, 1}, {2, 1}},
+		Bound: "five registered names with one symbolic TXT record each, a CNAME chain of param0 links (param1 = 1: closed into a cycle); resolve with and without trailing dot, for TXT and CNAME"},
+	{Prop: "C12", Pkg: "nns", Func: "VerifC12Expiry", Link: []string{"nns"},
+		Bound: "a name with symbolic lifetime 1..1000 s and one record, a symbolic time span 1..1.1*10^6 ms; getRecords, resolve, getAllRecords answer exactly until the expiration instant"},
+}
+
+func c11Params(thorough bool) [][]int {
+	var out [][]int
+	for v := 0; v < 2; v++ {
+		for m := 0; m <= 10; m++ {
+			n := 1
+			if m >= 9 {
+				n = 7
+			}
+			out = append(out, []int{v, m, n})
+			if thorough && m >= 9 {
+				out = append(out, []int{v, m, 1}, []int{v, m, 4})
+			}
+		}
+	}
+	return out
 }
 
 func c04Thorough() [][]int {
@@ -179,6 +209,8 @@ func allTriples(n int) [][]int {
 	}
 	return out
 }
+
+
 
 
 
